@@ -24,6 +24,13 @@ Scenario (JSON-able dict):
             JSON, 2 post_json malformed JSON, 3 post_tlv HTTP 4xx; the controller then hangs up itself) |
             shutdown_then [k, kind2, arg2]  (kind2 in ensure|zeroconf delivered k loop iterations after shutdown()
             was started, in the same tick: the model sees "shutdown; kind2" at one tick)
+            rstlate [cid, j]  (round 8: the accessory RESETS connection cid, but the event loop only notices j loop
+            iterations later - the RST sits in the kernel: until then write_eof() raises OSError(ENOTCONN) as
+            socket.shutdown(SHUT_WR) does, a write fails the transport at once, close() works; for the model = dropreset cid)
+  lst:      optional user-listener kind registered with all three dispatchers of the pairing (availability, events,
+            config changed): good | unreg-on-false | raise-on-false | closing-raise | closing-unreg | closing-reenter |
+            always-raise | always-unreg  ("closing-*": misbehaves only when called while a close()/shutdown() call is
+            running; "*-on-false": when told unavailable).  The property gives listeners no influence on connections.
   end:      tick at which the run stops (a final snapshot is taken)
   style:    "v4" (default) or "v6": hosts are advertised as non-canonical IPv6 literals and the
             connected peer reports the canonical, scoped spelling (address normalisation)
@@ -32,6 +39,7 @@ Trace: list of [tick, kind, ...] with a canonical order inside one tick.
 from __future__ import annotations
 
 import asyncio
+import errno
 import logging
 
 import ipsim
@@ -42,6 +50,55 @@ import vloop
 
 
 STYLE = "v4"
+
+
+class LateRstTransport(vloop.MemTransport):
+    """MemTransport plus the window between a peer RST reaching the kernel and the event loop noticing it
+    (_read_ready -> _fatal_error -> connection_lost).  Inside that window the selector transport behaves like this:
+    write_eof() -> socket.shutdown(SHUT_WR) raises OSError(ENOTCONN) (after setting _eof); write()/writelines() ->
+    send() fails -> _fatal_error -> forced close, nothing raised; close() -> plain close, connection_lost(None)."""
+
+    _rst_pending = False
+
+    def peer_reset_late(self, hops):
+        if self._conn_lost or self._closing:
+            return
+        self._rst_pending = True
+        self.closed_by = self.closed_by or "peer"
+        self.net._closed(self)                      # the accessory's side is gone the moment it resets
+
+        def hop(n):
+            if n > 0:
+                self._loop.call_soon(hop, n - 1)
+            elif self._rst_pending:
+                self._notice_rst()
+        self._loop.call_soon(hop, max(0, hops - 1))
+
+    def _notice_rst(self):
+        self._rst_pending = False
+        self._force_close(ConnectionResetError(errno.ECONNRESET, "reset by peer"))
+
+    def write_eof(self):
+        if self._closing or self._eof:
+            return
+        self._eof = True
+        if self._rst_pending:
+            raise OSError(errno.ENOTCONN, "Transport endpoint is not connected")
+
+    def write(self, data):
+        if self._rst_pending and not self._eof and not self._closing:
+            self._notice_rst()
+            return
+        super().write(data)
+
+    def writelines(self, list_of_data):
+        if self._rst_pending and not self._eof and not self._closing:
+            self._notice_rst()
+            return
+        super().writelines(list_of_data)
+
+
+vloop.MemTransport = LateRstTransport      # VLoop.create_connection builds whatever this name is bound to
 
 
 def host(i):
@@ -106,6 +163,8 @@ def run_scenario(sc):
         trace = partial
 
         def log(kind, *args):
+            if kind == "control" and args[0] == "rstlate":
+                args = ("dropreset", args[1][0])       # what it is at tick granularity (and for the model)
             trace.append((loop.ticks, kind) + args)
 
         # mirror network events into our trace with host indices
@@ -171,6 +230,30 @@ def run_scenario(sc):
             if sc.get("subs"):
                 p.subscriptions = {(1, 2)}
             conn = p.connection
+            closing_now = [0]
+            lst = sc.get("lst")
+            if lst:
+                stops = {}
+
+                def mk(which):
+                    def cb(arg=None):
+                        down = which == "avail" and arg is False
+                        act = (lst.startswith("always-") or (lst.endswith("-on-false") and down)
+                               or (lst.startswith("closing-") and closing_now[0] > 0))
+                        if not act:
+                            return
+                        if lst in ("unreg-on-false", "closing-unreg", "always-unreg"):
+                            stops[which]()
+                        elif lst == "closing-reenter":
+                            stops[which]()
+                            stops[which] = reg[which](cb)
+                        else:
+                            raise ValueError("listener " + which)
+                    return cb
+                reg = dict(avail=p.dispatcher_availability_changed, evt=p.dispatcher_connect,
+                           cfg=p.dispatcher_connect_config_changed)
+                for which in reg:
+                    stops[which] = reg[which](mk(which))
 
             def snap(tag):
                 log("snap", tag, sorted(t.cid for t in net.open), bool(conn.is_connected),
@@ -186,6 +269,7 @@ def run_scenario(sc):
                         raise
 
             async def closer(kind):
+                closing_now[0] += 1
                 try:
                     if kind == "close":
                         await p.close()
@@ -194,6 +278,8 @@ def run_scenario(sc):
                     log("returned", kind, "ok")
                 except BaseException as e:  # noqa
                     log("returned", kind, "raised:" + type(e).__name__)
+                finally:
+                    closing_now[0] -= 1
 
             async def badcall(v):
                 try:
@@ -227,6 +313,10 @@ def run_scenario(sc):
                     for tr in net.all:
                         if tr.cid == arg and tr in net.open:
                             tr.peer_fin() if kind == "drop" else tr.peer_reset()
+                elif kind == "rstlate":
+                    for tr in net.all:
+                        if tr.cid == arg[0] and tr in net.open:
+                            tr.peer_reset_late(arg[1])
                 elif kind in ("close", "shutdown"):
                     bg.append(asyncio.ensure_future(closer(kind)))
                 else:
